@@ -29,6 +29,23 @@ def laszip_count_in_file(data):
     return cnt
 
 
+def laszip_first(data):
+    """the same file with the LasZip record moved to the front of the VLR block (the layout other writers produce);
+    sizes and offsets are unchanged"""
+    hsize = int.from_bytes(data[94:96], "little")
+    n = int.from_bytes(data[100:104], "little")
+    pos, recs = hsize, []
+    for _ in range(n):
+        ln = int.from_bytes(data[pos + 20:pos + 22], "little")
+        recs.append(data[pos:pos + 54 + ln])
+        pos += 54 + ln
+    lz = [r for r in recs if r[2:18].split(b"\0")[0] == b"laszip encoded"]
+    rest = [r for r in recs if r[2:18].split(b"\0")[0] != b"laszip encoded"]
+    if len(lz) != 1 or not rest:
+        return None
+    return data[:hsize] + b"".join(lz + rest) + data[pos:]
+
+
 def canon_no_layout(las):
     """what must be equal between the compressed and the uncompressed reading: records, statistics, VLRs, EVLRs"""
     s = c01.canon_read(las)
@@ -145,6 +162,14 @@ def run(ck):
                     ck.fail(f"reading the compressed file ({how}) differs from reading the uncompressed one at char {k0}: ...{x[max(0,k0-30):k0+30]} vs ...{y[max(0,k0-30):k0+30]}", inp)
                 if any(type(v).__name__ == "LasZipVlr" for v in a.vlrs):
                     ck.fail("the LasZip record is shown among the user's VLRs after reading", inp)
+                # the LasZip record is found wherever it sits in the VLR block
+                moved = laszip_first(cdata)
+                if moved is not None:
+                    ck.count("laszip_record_first")
+                    am = laspy.read(io.BytesIO(moved), laz_backend=rb)
+                    if any(type(v).__name__ == "LasZipVlr" for v in am.vlrs) or canon_no_layout(am) != canon_no_layout(b):
+                        ck.fail("compressed file whose LasZip record is the first VLR: the record is shown or the user's VLRs / points differ "
+                                f"(VLRs read: {[type(v).__name__ + ':' + str(v.record_id) for v in am.vlrs]})", inp)
                 # write what was read again, compressed: exactly one record
                 again = io.BytesIO()
                 a.write(again, do_compress=True, laz_backend=bk)
